@@ -120,6 +120,7 @@ def run(ctx):
     sweep = []
     for a, b in ([("mul", "mul"), ("mul", "x"), ("mul", "pickle"), ("muladd", "mul"), ("scale", "x"), ("scale", "scale"),
                   ("to_affine", "y"), ("to_affine", "mul"), ("scale", "pickle"), ("mul", "eq"), ("muladd", "add")]
+                 + [(a_, "pickle") for a_ in OPS if a_ not in ("mul", "scale")]      # pickling iterates / copies the whole state
                  if quick else pairs):
         for gen, scaled, tfull in ((True, False, False), (False, False, False)) + (() if quick else ((True, True, False),)):
             sweep.append((((a,), (b,)), gen, scaled, tfull))
